@@ -85,6 +85,15 @@ func (f *Frame) call(b *ssa.BasicBlock, st *State, x *ssa.Call, cc *ssa.CallComm
 		recv := f.val(cc.Value)
 		_ = recv
 		mname := cc.Method.Name()
+		if ict := tr.contracts.ByIface[shortType(cc.Value.Type())+"."+mname]; ict != nil {
+			var args []Val
+			args = append(args, recv)
+			for _, a := range cc.Args {
+				args = append(args, f.val(a))
+			}
+			c.note("interface-level contract assumed of every implementation: " + shortType(cc.Value.Type()) + "." + mname)
+			return f.contractCall(b, st, ict, args, rt, name, instr)
+		}
 		// error.Error() and Stringer on unknown dynamic types: heap-neutral assumption is NOT made
 		c.note(fmt.Sprintf("interface method call %s.%s: unknown callee, heap havocked", shortType(cc.Value.Type()), mname))
 		f.havocAll(b, st, "invoke")
@@ -425,6 +434,23 @@ func (f *Frame) builtin(b *ssa.BasicBlock, st *State, name string, cc *ssa.CallC
 				return Val{t: ite(lt, args[0].t, args[1].t), typ: rt}
 			}
 			return Val{t: ite(lt, args[1].t, args[0].t), typ: rt}
+		}
+	case "clear":
+		if m, ok := cc.Args[0].Type().Underlying().(*types.Map); ok {
+			dom, _ := tr.mapKeys(m)
+			lk := tr.mapLenKey(m)
+			ms := c.memSorts[dom]
+			empty := sx(fmt.Sprintf("(as const (Array %s Bool))", ms.idx[1]), "false")
+			st.mem[dom] = c.define("H_"+dom, tr.memSortFull(dom), sx("store", tr.memGet(st, dom), args[0].t, empty))
+			st.mem[lk] = c.define("H_"+lk, tr.memSortFull(lk), sx("store", tr.memGet(st, lk), args[0].t, it.iconst(0)))
+			f.noteWrite(dom, b.Index)
+			f.noteWrite(lk, b.Index)
+			return Val{}
+		}
+		if sl, ok := cc.Args[0].Type().Underlying().(*types.Slice); ok {
+			f.havocElems(b, st, sl.Elem(), args[0])
+			c.note("builtin clear on a slice: elements havocked")
+			return Val{}
 		}
 	case "close":
 		c.note("channel operations abstracted (values received are havoc, no interleaving semantics)")
